@@ -87,6 +87,26 @@ let cast_name = function
 
 let bits s i = b01 s.[i]
 
+(* the specification side (Proof/AdjustCliSpec.v): scan + keyword form *)
+let refusal_name = function
+  | RUnknown -> "unknown" | RAmbiguous -> "ambiguous" | RMissingValue -> "missing-value"
+  | RUnexpectedValue -> "unexpected-value" | RShortOption -> "short-option"
+let spec_str (argv : str list) : string =
+  match scan argv with
+  | Refused w -> "REFUSED " ^ refusal_name w
+  | Scanned (occs, pos) ->
+    let app = (match choose_app occs pos with
+               | AppMissing -> "Amissing" | AppExtra -> "Aextra" | AppIs a -> "Ais:" ^ string_of_cps a) in
+    String.concat " " (["OK"; "H" ^ s01 (has_help occs); "C" ^ s01 (has_call occs); app;
+                        "N" ^ string_of_int (List.length occs)]
+                       @ List.map (fun (k, v) -> string_of_cps k ^ ":" ^ string_of_value v) (keyword_form occs))
+let dval_str = function
+  | DNone -> "N" | DBool b -> "B" ^ s01 b | DInt x -> "I" ^ dec_of_z x | DStr s -> "S" ^ string_of_cps s
+  | DEmptyList -> "K" | DEmptySet -> "T" | DHostPort -> "HP"
+let dvals l = String.concat " " (List.map (fun (n, d) -> string_of_cps n ^ ":" ^ dval_str d) l)
+let resolve_str t = match resolve t with
+  | Unknown -> "unknown" | Ambiguous -> "ambiguous" | Found (n, _) -> "found " ^ string_of_cps n
+
 let () = main_loop (fun w -> match w with
   | ["cast"; c; v] -> out string_of_setting (cast_value (cast_of c) (value_of v))
   | "construct" :: e :: kw -> out attrs_str (construct (env_of e) (List.map kw_item kw))
@@ -108,6 +128,11 @@ let () = main_loop (fun w -> match w with
   | ["socks"; e; v] -> (match value_of v with VSocks l -> s01 (check_sockets (env_of e) l) | _ -> "ERR")
   | ["mw"; b] -> s01 (middleware_installed (bits b 0) (bits b 1))
   | ["hostport"; b] -> s01 (hostport_override (bits b 0) (bits b 1))
+  | "spec" :: argv -> spec_str (List.map cps_of_string argv)
+  | ["resolve"; t] -> resolve_str (cps_of_string t)
+  | ["classdefaults"] -> dvals class_defaults
+  | ["docdefaults"; w] -> dvals (match w with "docs" -> docs_defaults | "help" -> help_defaults | _ -> runner_rst_defaults)
+  | ["dochdrs"; w] -> strs (match w with "docs" -> docs_proxy_headers | "help" -> help_proxy_headers | _ -> runner_rst_proxy_headers)
   | ["exclnames"] -> strs excl_names
   | ["params"] -> String.concat " " (List.map (fun (n, c) -> string_of_cps n ^ ":" ^ cast_name c) params)
   | ["longopts"] -> strs cli_long_opts
